@@ -1513,3 +1513,485 @@ Proof.
   { exact Hk. }
   rewrite Hc. cbn [andb]. apply IH; assumption.
 Qed.
+
+(* ------------------------------------------------------------------ what an accepted outcome means *)
+Lemma chk_reset_clauses : forall cfg order d o, chk_reset cfg order d o = true ->
+  covered cfg o = true ->
+  cl_order cfg order d o = true /\ cl_cover cfg d o = true /\ cl_maze cfg d o = true
+  /\ cl_trace cfg o = true /\ cl_entries cfg d o = true /\ cl_grid cfg o = true
+  /\ cl_alone cfg d o = true /\ cl_kind cfg d o = true.
+Proof.
+  intros cfg order d o H Hc. unfold chk_reset in H. rewrite Hc in H. unfold clauses in H.
+  cbn [forallb] in H. repeat (apply andb_true_iff in H; destruct H as [? H]). tauto.
+Qed.
+
+Lemma check_log_split : forall cfg st mz rest pre0 r1 ap r2,
+  check_log cfg st mz pre0 rest = true -> rest = r1 ++ ap :: r2 ->
+  entry_okb cfg st mz (pre0 ++ r1) ap = true.
+Proof.
+  intros cfg st mz rest pre0 r1 ap r2 H E. subst rest. rewrite check_log_app in H.
+  apply andb_true_iff in H. destruct H as [_ H]. cbn [check_log] in H.
+  apply andb_true_iff in H. tauto.
+Qed.
+
+Lemma entry_okb_spec : forall cfg st mz pre a p,
+  entry_okb cfg st mz pre (a, p) = true ->
+  in_grid cfg p = true
+  /\ (forall b, In (b, p) pre -> may_share cfg a b = true)
+  /\ match prescribed cfg st a with
+     | Some q => p = q
+     | None =>
+         let av := spec_avail cfg mz pre (enc cfg a) in
+         let dd := dist2 cfg (match st with Some s => s | None => (0, 0) end) in
+         In (ravel cfg p) av
+         /\ (clustered cfg (enc cfg a) = true -> forall k, In k av -> dd (ravel cfg p) <= dd k)
+         /\ (scattered cfg (enc cfg a) = true -> forall k, In k av -> dd k <= dd (ravel cfg p))
+     end.
+Proof.
+  intros cfg st mz pre a p H. unfold entry_okb in H. cbn [fst snd] in H.
+  apply andb_true_iff in H. destruct H as [H H3]. apply andb_true_iff in H. destruct H as [H1 H2].
+  split; [exact H1|]. split.
+  - intros b Hb. rewrite forallb_forall in H2. specialize (H2 (b, p) Hb). cbn [fst snd] in H2.
+    rewrite cell_eqb_refl in H2. exact H2.
+  - destruct (prescribed cfg st a) as [q|]; [apply cell_eqb_eq; exact H3|].
+    cbn zeta. apply andb_true_iff in H3. destruct H3 as [H3 H5].
+    apply andb_true_iff in H3. destruct H3 as [H3 H4]. split; [apply memZ_In; exact H3|]. split.
+    + intros Hc k Hk. rewrite Hc in H4. rewrite forallb_forall in H4. specialize (H4 k Hk). lia.
+    + intros Hc k Hk. rewrite Hc in H5. rewrite forallb_forall in H5. specialize (H5 k Hk). lia.
+Qed.
+
+Lemma in_two_split : forall {X} (x y : X) l, In x l -> In y l -> x <> y ->
+  (exists l1 l2 l3, l = l1 ++ x :: l2 ++ y :: l3) \/ (exists l1 l2 l3, l = l1 ++ y :: l2 ++ x :: l3).
+Proof.
+  intros X x y l Hx Hy Hne. apply in_split in Hx. destruct Hx as [l1 [l2 E]]. subst l.
+  apply in_app_iff in Hy. destruct Hy as [Hy|[Hy|Hy]].
+  - right. apply in_split in Hy. destruct Hy as [a [b E]]. subst l1.
+    exists a, b, l2. rewrite <- app_assoc. reflexivity.
+  - congruence.
+  - left. apply in_split in Hy. destruct Hy as [a [b E]]. subst l2. exists l1, a, b. reflexivity.
+Qed.
+
+Lemma may_share_comm : forall cfg a b, may_share cfg a b = may_share cfg b a.
+Proof. intros. unfold may_share. apply andb_comm. Qed.
+
+Lemma occupants_In_iff : forall log q b, In b (occupants log q) <-> In (b, q) log.
+Proof.
+  intros log q b. split; [apply occupants_In|]. intros H. unfold occupants.
+  apply in_map_iff. exists (b, q). split; [reflexivity|]. apply filter_In.
+  split; [exact H | apply cell_eqb_refl].
+Qed.
+
+Lemma NoDup_fst_unique : forall (log : plog) a p p', NoDup (map fst log) ->
+  In (a, p) log -> In (a, p') log -> p = p'.
+Proof.
+  induction log as [|[b q] log IH]; intros a p p' Hnd H1 H2; [destruct H1|].
+  cbn [map fst] in Hnd. inversion Hnd as [|? ? Hn Hd]; subst.
+  destruct H1 as [H1|H1]; destruct H2 as [H2|H2].
+  - congruence.
+  - inversion H1; subst. exfalso. apply Hn. apply in_map_iff. exists (a, p'). auto.
+  - inversion H2; subst. exfalso. apply Hn. apply in_map_iff. exists (a, p). auto.
+  - eapply IH; eassumption.
+Qed.
+
+(* the readable clauses, for ANY reported outcome the checker accepts *)
+Definition legal (cfg : config) (d : draws) (o : outcome) : Prop :=
+  (* placed agents stand inside the grid *)
+  (forall a p, In (a, p) (o_log o) -> in_grid cfg p = true)
+  (* agents with an initial position (and the target) stand on their cell *)
+  /\ (forall a p q, In (a, p) (o_log o) ->
+        prescribed cfg (spec_start cfg d) a = Some q -> p = q)
+  (* any two agents on one cell may overlap each other *)
+  /\ (forall a b p, In (a, p) (o_log o) -> In (b, p) (o_log o) -> a <> b ->
+        may_share cfg a b = true)
+  (* with no_overlap_at_reset a freely placed agent is alone; a randomly placed target only
+     shares with agents that have an initial position *)
+  /\ (c_noov cfg = true -> forall a p b, In (a, p) (o_log o) -> In (b, p) (o_log o) ->
+        (prescribed cfg (spec_start cfg d) a = None -> b = a)
+        /\ (is_target cfg a = true -> has_init cfg a = false -> b = a \/ has_init cfg b = true))
+  (* the grid and the positions are those of the placements *)
+  /\ o_cells o = cells_of cfg (o_log o)
+  (* on success every agent is placed exactly once *)
+  /\ (o_kind o = ROk ->
+      NoDup (map fst (o_log o))
+      /\ (forall a, (a < length (c_agents cfg))%nat -> exists p, In (a, p) (o_log o))
+      /\ o_pos o = positions_of cfg (o_log o)).
+
+Lemma list_eqb_cells_eq : forall l m : list (list nat),
+  list_eqb (list_eqb Nat.eqb) l m = true -> l = m.
+Proof.
+  induction l as [|x l IH]; intros [|y m] H; cbn in H; try discriminate; [reflexivity|].
+  apply andb_true_iff in H. destruct H as [H1 H2]. apply list_eqb_nat_eq in H1. subst.
+  f_equal. apply IH. exact H2.
+Qed.
+
+Lemma list_eqb_cell_eq : forall l m : list cell, list_eqb cell_eqb l m = true -> l = m.
+Proof.
+  induction l as [|x l IH]; intros [|y m] H; cbn in H; try discriminate; [reflexivity|].
+  apply andb_true_iff in H. destruct H as [H1 H2]. apply cell_eqb_eq in H1. subst.
+  f_equal. apply IH. exact H2.
+Qed.
+
+Lemma count_pos_In : forall a l, length (filter (Nat.eqb a) l) = 1%nat -> In a l.
+Proof.
+  intros a l H. destruct (filter (Nat.eqb a) l) as [|x t] eqn:E; [discriminate|].
+  assert (Hx : In x (filter (Nat.eqb a) l)) by (rewrite E; left; reflexivity).
+  apply filter_In in Hx. destruct Hx as [Hx He]. apply Nat.eqb_eq in He. subst. exact Hx.
+Qed.
+
+Lemma chk_sound_legal : forall cfg order d o, wf_config cfg = true -> order_ok cfg order ->
+  chk_reset cfg order d o = true -> covered cfg o = true -> legal cfg d o.
+Proof.
+  intros cfg order d o Hwf Hord H Hc.
+  destruct (chk_reset_clauses cfg order d o H Hc) as [Ho [_ [_ [Ht [He [Hg [Ha Hk]]]]]]].
+  unfold cl_entries in He.
+  assert (Hent : forall a p, In (a, p) (o_log o) -> exists pre post,
+            o_log o = pre ++ (a, p) :: post
+            /\ entry_okb cfg (spec_start cfg d) (o_maze o) pre (a, p) = true).
+  { intros a p Hin. apply in_split in Hin. destruct Hin as [pre [post E]]. exists pre, post.
+    split; [exact E|]. apply (check_log_split _ _ _ _ [] pre (a, p) post He E). }
+  unfold cl_grid in Hg. apply andb_true_iff in Hg. destruct Hg as [Hg1 Hg2].
+  split; [|split; [|split; [|split; [|split]]]].
+  - intros a p Hin. destruct (Hent a p Hin) as [pre [post [_ E]]].
+    apply entry_okb_spec in E. tauto.
+  - intros a p q Hin Hp. destruct (Hent a p Hin) as [pre [post [_ E]]].
+    apply entry_okb_spec in E. destruct E as [_ [_ E]]. rewrite Hp in E. exact E.
+  - intros a b p Hina Hinb Hne.
+    destruct (in_two_split (a, p) (b, p) (o_log o) Hina Hinb) as [[l1 [l2 [l3 E]]]|[l1 [l2 [l3 E]]]].
+    { congruence. }
+    + rewrite app_comm_cons, app_assoc in E.
+      pose proof (check_log_split _ _ _ _ [] _ (b, p) l3 He E) as Eb.
+      apply entry_okb_spec in Eb. destruct Eb as [_ [Eb _]]. rewrite may_share_comm. apply Eb.
+      cbn [app]. apply in_app_iff. right. left. reflexivity.
+    + rewrite app_comm_cons, app_assoc in E.
+      pose proof (check_log_split _ _ _ _ [] _ (a, p) l3 He E) as Ea.
+      apply entry_okb_spec in Ea. destruct Ea as [_ [Ea _]]. apply Ea.
+      cbn [app]. apply in_app_iff. right. left. reflexivity.
+  - intros Hn a p b Hina Hinb. unfold cl_alone in Ha. rewrite Hn in Ha.
+    rewrite forallb_forall in Ha. specialize (Ha (a, p) Hina). cbn [fst snd] in Ha. split.
+    + intros Hp. rewrite Hp in Ha. apply list_eqb_nat_eq in Ha.
+      apply occupants_In_iff in Hinb. rewrite Ha in Hinb. destruct Hinb as [Hb|[]]. congruence.
+    + intros Hta Hia. destruct (prescribed cfg (spec_start cfg d) a).
+      * rewrite Hta, Hia in Ha. cbn [negb andb] in Ha. rewrite forallb_forall in Ha.
+        apply occupants_In_iff in Hinb. specialize (Ha b Hinb). apply orb_true_iff in Ha.
+        destruct Ha as [Hb|Hb]; [left; apply Nat.eqb_eq; exact Hb | right; exact Hb].
+      * apply list_eqb_nat_eq in Ha. apply occupants_In_iff in Hinb. rewrite Ha in Hinb.
+        destruct Hinb as [Hb|[]]. left. congruence.
+  - apply list_eqb_cells_eq. exact Hg1.
+  - intros Hok. rewrite Hok in Hg2. apply andb_true_iff in Hg2. destruct Hg2 as [Hp Hcnt].
+    unfold cl_kind in Hk. rewrite Hok in Hk. apply Nat.eqb_eq in Hk.
+    unfold cl_trace in Ht. apply list_eqb_nat_eq in Ht. rewrite Hk, firstn_all in Ht.
+    unfold cl_order in Ho.
+    assert (Hord' : order_ok cfg (o_order o)).
+    { destruct (c_rand cfg).
+      - apply andb_true_iff in Ho. destruct Ho as [_ Ho]. eapply order_ok_perm; eassumption.
+      - apply list_eqb_nat_eq in Ho. rewrite Ho. exact Hord. }
+    split; [|split].
+    + rewrite Ht. apply seq_of_NoDup. exact Hord'.
+    + intros a Ha'. rewrite forallb_forall in Hcnt.
+      assert (Hin : In a (map fst (o_log o))).
+      { apply count_pos_In. apply Nat.eqb_eq. apply Hcnt. apply in_seq. lia. }
+      apply in_map_iff in Hin. destruct Hin as [[a' p] [Ea Hin]]. cbn in Ea. subst a'.
+      exists p. exact Hin.
+    + apply list_eqb_cell_eq. exact Hp.
+Qed.
+
+Lemma chk_sound_partition : forall cfg order d o m, wf_config cfg = true ->
+  chk_reset cfg order d o = true -> covered cfg o = true ->
+  c_kind cfg = KMaze -> o_maze o = Some m ->
+  forall a p, In (a, p) (o_log o) -> prescribed cfg (spec_start cfg d) a = None ->
+    (memZ (enc cfg a) (c_barrier cfg) = true -> gget m p = 1)
+    /\ (memZ (enc cfg a) (c_free cfg) = true -> gget m p = 0).
+Proof.
+  intros cfg order d o m Hwf H Hc Hk Hm a p Hin Hp.
+  destruct (wf_parts cfg Hwf) as [_ [Hcols [_ [_ Ht]]]].
+  destruct Ht as [_ Hdj]; [congruence|].
+  destruct (chk_reset_clauses cfg order d o H Hc) as [_ [_ [_ [_ [He _]]]]].
+  unfold cl_entries in He. apply in_split in Hin. destruct Hin as [pre [post E]].
+  pose proof (check_log_split _ _ _ _ [] pre (a, p) post He E) as En.
+  apply entry_okb_spec in En. destruct En as [Hg [_ En]]. rewrite Hp in En. cbn zeta in En.
+  destruct En as [En _]. rewrite spec_avail_filter in En. apply filter_In in En.
+  destruct En as [En _]. unfold spec_init in En. rewrite Hk, Hm in En.
+  apply in_grid_spec in Hg.
+  split; intros Hmem.
+  - rewrite (disjoint_spec cfg _ Hdj Hmem), Hmem in En. unfold maze_cells in En.
+    apply filter_In in En. destruct En as [_ En]. rewrite unravel_ravel in En by lia. lia.
+  - rewrite Hmem in En. unfold maze_cells in En.
+    apply filter_In in En. destruct En as [_ En]. rewrite unravel_ravel in En by lia. lia.
+Qed.
+
+Lemma chk_sound_cluster : forall cfg order d o,
+  chk_reset cfg order d o = true -> covered cfg o = true ->
+  forall pre a p post st, o_log o = pre ++ (a, p) :: post ->
+    prescribed cfg (spec_start cfg d) a = None -> spec_start cfg d = Some st ->
+    In (ravel cfg p) (spec_avail cfg (o_maze o) pre (enc cfg a))
+    /\ (clustered cfg (enc cfg a) = true ->
+        forall k, In k (spec_avail cfg (o_maze o) pre (enc cfg a)) ->
+                  dist2 cfg st (ravel cfg p) <= dist2 cfg st k)
+    /\ (scattered cfg (enc cfg a) = true ->
+        forall k, In k (spec_avail cfg (o_maze o) pre (enc cfg a)) ->
+                  dist2 cfg st k <= dist2 cfg st (ravel cfg p)).
+Proof.
+  intros cfg order d o H Hc pre a p post st E Hp Hst.
+  destruct (chk_reset_clauses cfg order d o H Hc) as [_ [_ [_ [_ [He _]]]]].
+  unfold cl_entries in He.
+  pose proof (check_log_split _ _ _ _ [] pre (a, p) post He E) as En.
+  apply entry_okb_spec in En. destruct En as [_ [_ En]]. rewrite Hp, Hst in En. exact En.
+Qed.
+
+Lemma chk_sound_kind : forall cfg order d o,
+  chk_reset cfg order d o = true -> covered cfg o = true ->
+  let sq := seq_of cfg (o_order o) in
+  map fst (o_log o) = firstn (length (o_log o)) sq
+  /\ (o_kind o = ROk \/ o_kind o = RReject \/ o_kind o = RRuntime)
+  /\ (o_kind o = ROk <-> length (o_log o) = length sq)
+  /\ (o_kind o = RRuntime ->
+      exists a, nth_error sq (length (o_log o)) = Some a
+                /\ prescribed cfg (spec_start cfg d) a = None
+                /\ spec_avail cfg (o_maze o) (o_log o) (enc cfg a) = [])
+  /\ (o_kind o = RReject ->
+      exists a q, nth_error sq (length (o_log o)) = Some a
+                  /\ prescribed cfg (spec_start cfg d) a = Some q
+                  /\ grid_query cfg (o_log o) a q = false).
+Proof.
+  intros cfg order d o H Hc sq.
+  destruct (chk_reset_clauses cfg order d o H Hc) as [_ [_ [_ [Ht [_ [_ [_ Hk]]]]]]].
+  unfold cl_trace in Ht. apply list_eqb_nat_eq in Ht. fold sq in Ht.
+  unfold cl_kind in Hk. fold sq in Hk. rewrite Hc in Hk. cbn [negb orb] in Hk.
+  split; [exact Ht|].
+  destruct (o_kind o) eqn:Ek; try discriminate.
+  - apply Nat.eqb_eq in Hk. split; [auto|]. split; [tauto|]. split; discriminate.
+  - split; [auto|].
+    destruct (nth_error sq (length (o_log o))) as [a|] eqn:En; [|discriminate].
+    destruct (prescribed cfg (spec_start cfg d) a) as [q|] eqn:Ep; [|discriminate].
+    split.
+    + split; [discriminate|]. intros Hl. exfalso.
+      assert (Hn : nth_error sq (length (o_log o)) <> None) by congruence.
+      apply nth_error_Some in Hn. lia.
+    + split; [discriminate|]. intros _. exists a, q. apply negb_true_iff in Hk. auto.
+  - split; [auto|].
+    destruct (nth_error sq (length (o_log o))) as [a|] eqn:En; [|discriminate].
+    destruct (prescribed cfg (spec_start cfg d) a) as [q|] eqn:Ep; [discriminate|].
+    destruct (spec_avail cfg (o_maze o) (o_log o) (enc cfg a)) eqn:Es; [|discriminate].
+    split.
+    + split; [discriminate|]. intros Hl. exfalso.
+      assert (Hn : nth_error sq (length (o_log o)) <> None) by congruence.
+      apply nth_error_Some in Hn. lia.
+    + split; [|discriminate]. intros _. exists a. auto.
+Qed.
+
+Lemma chk_sound_uncovered : forall cfg order d o,
+  chk_reset cfg order d o = true -> covered cfg o = false ->
+  o_kind o = RReject /\ o_log o = [] /\ o_maze o = None.
+Proof.
+  intros cfg order d o H Hc. unfold chk_reset in H. rewrite Hc in H.
+  apply andb_true_iff in H. destruct H as [H _]. apply andb_true_iff in H. destruct H as [_ H].
+  unfold cl_cover in H. rewrite Hc in H.
+  destruct (o_kind o); try discriminate. destruct (o_log o); [|discriminate].
+  destruct (o_maze o); [discriminate|]. auto.
+Qed.
+
+(* the reported grid / positions as functions of the placements *)
+Lemma nth_map_seq : forall {X} (h : nat -> X) d N s i, (i < N)%nat ->
+  nth i (map h (seq s N)) d = h (s + i)%nat.
+Proof.
+  intros X h d. induction N as [|N IH]; intros s i Hi; [lia|]. cbn [seq map].
+  destruct i as [|i]; cbn [nth]; [f_equal; lia|]. rewrite IH by lia. f_equal. lia.
+Qed.
+
+Lemma cells_of_spec : forall cfg log k, 0 <= k < ncells cfg ->
+  nth (Z.to_nat k) (cells_of cfg log) [] = occupants log (unravel cfg k).
+Proof.
+  intros cfg log k Hk. unfold cells_of, cells. rewrite map_map.
+  rewrite nth_map_seq by lia. cbn [Nat.add]. rewrite Z2Nat.id by lia. reflexivity.
+Qed.
+
+Lemma pos_lookup_spec : forall log a p, NoDup (map fst log) -> In (a, p) log ->
+  pos_lookup a log = p.
+Proof.
+  induction log as [|[b q] log IH]; intros a p Hnd Hin; [destruct Hin|].
+  cbn [map fst] in Hnd. inversion Hnd as [|? ? Hn Hd]; subst. cbn [pos_lookup].
+  destruct Hin as [Hin|Hin].
+  - inversion Hin; subst. rewrite Nat.eqb_refl. reflexivity.
+  - destruct (Nat.eqb a b) eqn:E; [|apply IH; assumption].
+    apply Nat.eqb_eq in E. subst b. exfalso. apply Hn. apply in_map_iff. exists (a, p). auto.
+Qed.
+
+Lemma positions_of_spec : forall cfg log a p, NoDup (map fst log) -> In (a, p) log ->
+  (a < length (c_agents cfg))%nat -> nth a (positions_of cfg log) (-1, -1) = p.
+Proof.
+  intros cfg log a p Hnd Hin Ha. unfold positions_of. rewrite nth_map_seq by exact Ha.
+  cbn [Nat.add]. apply pos_lookup_spec; assumption.
+Qed.
+
+(* ------------------------------------------------------------------ the model's outcome *)
+Lemma model_chk : forall cfg order d, wf_config cfg = true -> order_ok cfg order ->
+  o_kind (outcome_of cfg (reset cfg order d)) <> RBad ->
+  chk_reset cfg order d (outcome_of cfg (reset cfg order d)) = true
+  /\ order_ok cfg (o_order (outcome_of cfg (reset cfg order d))).
+Proof.
+  intros cfg order d Hwf Hord Hnb.
+  destruct (reset_good_all cfg order d Hwf Hord Hnb) as [H1 [H2 _]]. split; assumption.
+Qed.
+
+Lemma model_avail : forall cfg order d, wf_config cfg = true -> order_ok cfg order ->
+  res_kind (snd (reset cfg order d)) <> RBad ->
+  forall e l, av_get e (ps_avail (res_state (snd (reset cfg order d)))) = Some l ->
+  forall k, In k l <->
+            In k (spec_avail cfg (snd (fst (reset cfg order d)))
+                             (ps_log (res_state (snd (reset cfg order d)))) e).
+Proof.
+  intros cfg order d Hwf Hord Hnb.
+  destruct (reset_good_all cfg order d Hwf Hord Hnb) as [_ [_ H3]]. exact H3.
+Qed.
+
+Lemma model_covered_ok : forall cfg order d, wf_config cfg = true -> order_ok cfg order ->
+  o_kind (outcome_of cfg (reset cfg order d)) = ROk ->
+  covered cfg (outcome_of cfg (reset cfg order d)) = true.
+Proof.
+  intros cfg order d Hwf Hord Hok.
+  destruct (model_chk cfg order d Hwf Hord) as [Hc _]; [congruence|].
+  destruct (covered cfg (outcome_of cfg (reset cfg order d))) eqn:E; [reflexivity|].
+  destruct (chk_sound_uncovered _ _ _ _ Hc E) as [Hk _]. congruence.
+Qed.
+
+Lemma model_legal_partial : forall cfg order d, wf_config cfg = true -> order_ok cfg order ->
+  o_kind (outcome_of cfg (reset cfg order d)) <> RBad ->
+  covered cfg (outcome_of cfg (reset cfg order d)) = true ->
+  legal cfg d (outcome_of cfg (reset cfg order d)).
+Proof.
+  intros cfg order d Hwf Hord Hnb Hc.
+  destruct (model_chk cfg order d Hwf Hord Hnb) as [H _].
+  eapply chk_sound_legal; eassumption.
+Qed.
+
+Lemma model_legal : forall cfg order d, wf_config cfg = true -> order_ok cfg order ->
+  o_kind (outcome_of cfg (reset cfg order d)) = ROk ->
+  legal cfg d (outcome_of cfg (reset cfg order d)).
+Proof.
+  intros cfg order d Hwf Hord Hok. apply model_legal_partial; try assumption; [congruence|].
+  apply model_covered_ok; assumption.
+Qed.
+
+Lemma model_partition : forall cfg order d m, wf_config cfg = true -> order_ok cfg order ->
+  c_kind cfg = KMaze ->
+  o_kind (outcome_of cfg (reset cfg order d)) = ROk ->
+  o_maze (outcome_of cfg (reset cfg order d)) = Some m ->
+  forall a p, In (a, p) (o_log (outcome_of cfg (reset cfg order d))) ->
+    prescribed cfg (spec_start cfg d) a = None ->
+    (memZ (enc cfg a) (c_barrier cfg) = true -> gget m p = 1)
+    /\ (memZ (enc cfg a) (c_free cfg) = true -> gget m p = 0).
+Proof.
+  intros cfg order d m Hwf Hord Hk Hok Hm.
+  destruct (model_chk cfg order d Hwf Hord) as [H _]; [congruence|].
+  eapply chk_sound_partition; try eassumption. apply model_covered_ok; assumption.
+Qed.
+
+Lemma model_maze : forall cfg order d, wf_config cfg = true -> order_ok cfg order ->
+  c_kind cfg = KMaze ->
+  o_kind (outcome_of cfg (reset cfg order d)) <> RBad ->
+  covered cfg (outcome_of cfg (reset cfg order d)) = true ->
+  exists m st, o_maze (outcome_of cfg (reset cfg order d)) = Some m
+    /\ spec_start cfg d = Some st
+    /\ maze_shape_b m (c_rows cfg) (c_cols cfg) = true
+    /\ gget m st = 0 /\ (forall p, gget m p = 0 -> conn m st p).
+Proof.
+  intros cfg order d Hwf Hord Hk Hnb Hc.
+  destruct (model_chk cfg order d Hwf Hord Hnb) as [H _].
+  destruct (chk_reset_clauses _ _ _ _ H Hc) as [_ [_ [Hm _]]].
+  unfold cl_maze in Hm. rewrite Hk, Hc in Hm.
+  destruct (o_maze (outcome_of cfg (reset cfg order d))) as [m|]; [|discriminate].
+  destruct (spec_start cfg d) as [st|]; [|discriminate].
+  apply andb_true_iff in Hm. destruct Hm as [Hs Hcn]. exists m, st.
+  split; [reflexivity|]. split; [reflexivity|]. split; [exact Hs|].
+  apply (maze_connected_b_sound m (c_rows cfg) (c_cols cfg) st Hs Hcn).
+Qed.
+
+Lemma model_cluster : forall cfg order d, wf_config cfg = true -> order_ok cfg order ->
+  o_kind (outcome_of cfg (reset cfg order d)) <> RBad ->
+  forall pre a p post st,
+    o_log (outcome_of cfg (reset cfg order d)) = pre ++ (a, p) :: post ->
+    prescribed cfg (spec_start cfg d) a = None -> spec_start cfg d = Some st ->
+    let av := spec_avail cfg (o_maze (outcome_of cfg (reset cfg order d))) pre (enc cfg a) in
+    In (ravel cfg p) av
+    /\ (clustered cfg (enc cfg a) = true ->
+        forall k, In k av -> dist2 cfg st (ravel cfg p) <= dist2 cfg st k)
+    /\ (scattered cfg (enc cfg a) = true ->
+        forall k, In k av -> dist2 cfg st k <= dist2 cfg st (ravel cfg p)).
+Proof.
+  intros cfg order d Hwf Hord Hnb pre a p post st E Hp Hst.
+  destruct (model_chk cfg order d Hwf Hord Hnb) as [H _].
+  destruct (covered cfg (outcome_of cfg (reset cfg order d))) eqn:Hc.
+  - cbn zeta. eapply chk_sound_cluster; eassumption.
+  - destruct (chk_sound_uncovered _ _ _ _ H Hc) as [_ [Hl _]]. rewrite Hl in E.
+    destruct pre; discriminate.
+Qed.
+
+Lemma model_error : forall cfg order d, wf_config cfg = true -> order_ok cfg order ->
+  let o := outcome_of cfg (reset cfg order d) in
+  let sq := seq_of cfg (o_order o) in
+  o_kind o <> RBad ->
+  (o_kind o = ROk \/ o_kind o = RReject \/ o_kind o = RRuntime)
+  /\ map fst (o_log o) = firstn (length (o_log o)) sq
+  /\ (o_kind o = ROk -> map fst (o_log o) = sq /\ legal cfg d o)
+  /\ (o_kind o = RRuntime ->
+      exists a, nth_error sq (length (o_log o)) = Some a
+                /\ prescribed cfg (spec_start cfg d) a = None
+                /\ spec_avail cfg (o_maze o) (o_log o) (enc cfg a) = [])
+  /\ (o_kind o = RReject ->
+      (covered cfg o = false /\ o_log o = [])
+      \/ exists a q, nth_error sq (length (o_log o)) = Some a
+                     /\ prescribed cfg (spec_start cfg d) a = Some q
+                     /\ grid_query cfg (o_log o) a q = false).
+Proof.
+  intros cfg order d Hwf Hord o sq Hnb.
+  destruct (model_chk cfg order d Hwf Hord Hnb) as [H _]. fold o in H.
+  destruct (covered cfg o) eqn:Hc.
+  - destruct (chk_sound_kind cfg order d o H Hc) as [Ht [Hk [Hok [Hrt Hrj]]]].
+    fold sq in Ht, Hok, Hrt, Hrj.
+    split; [exact Hk|]. split; [exact Ht|]. split; [|split].
+    + intros Ek. split.
+      * rewrite Ht. rewrite (proj1 Hok Ek). apply firstn_all.
+      * apply model_legal; assumption.
+    + exact Hrt.
+    + intros Ek. right. apply Hrj. exact Ek.
+  - destruct (chk_sound_uncovered _ _ _ _ H Hc) as [Hk [Hl _]].
+    split; [auto|]. split; [rewrite Hl; reflexivity|]. split; [congruence|].
+    split; [congruence|]. intros _. left. auto.
+Qed.
+
+Lemma model_positions : forall cfg order d, wf_config cfg = true -> order_ok cfg order ->
+  let o := outcome_of cfg (reset cfg order d) in
+  o_kind o = ROk ->
+  forall a, (a < length (c_agents cfg))%nat ->
+  exists p, In (a, p) (o_log o)
+    /\ (forall p', In (a, p') (o_log o) -> p' = p)
+    /\ in_grid cfg p = true
+    /\ nth a (o_pos o) (-1, -1) = p
+    /\ (forall k, 0 <= k < ncells cfg ->
+          (In a (nth (Z.to_nat k) (o_cells o) []) <-> k = ravel cfg p)).
+Proof.
+  intros cfg order d Hwf Hord o Hok a Ha.
+  destruct (wf_parts cfg Hwf) as [_ [Hcols _]].
+  destruct (model_legal cfg order d Hwf Hord Hok) as [Hg [_ [_ [_ [Hcells Hall]]]]].
+  fold o in Hg, Hcells, Hall. destruct (Hall Hok) as [Hnd [Hex Hpos]].
+  destruct (Hex a Ha) as [p Hin]. exists p.
+  split; [exact Hin|]. split; [intros p' Hp'; eapply NoDup_fst_unique; eassumption|].
+  split; [eapply Hg; exact Hin|]. split.
+  - rewrite Hpos. apply positions_of_spec; assumption.
+  - intros k Hk. rewrite Hcells, cells_of_spec by exact Hk. rewrite occupants_In_iff. split.
+    + intros Hin'. rewrite <- (NoDup_fst_unique _ _ _ _ Hnd Hin' Hin).
+      symmetry. apply ravel_unravel. exact Hcols.
+    + intros E. subst k. pose proof (Hg a p Hin) as Hgp. apply in_grid_spec in Hgp.
+      rewrite unravel_ravel by lia. exact Hin.
+Qed.
+
+Lemma maze_connected_b_exact : forall m rows cols start, 0 < rows -> 0 < cols ->
+  0 <= fst start < rows -> 0 <= snd start < cols ->
+  maze_shape_b m rows cols = true ->
+  (maze_connected_b m rows cols start = true <->
+   gget m start = 0 /\ (forall p, gget m p = 0 -> conn m start p)).
+Proof.
+  intros m rows cols start H1 H2 H3 H4 Hs. split.
+  - exact (maze_connected_b_sound m rows cols start Hs).
+  - intros [Ha Hb]. exact (maze_connected_b_complete m rows cols start H1 H2 H3 H4 Hs Ha Hb).
+Qed.
